@@ -67,7 +67,9 @@ type c03Inst struct {
 }
 
 var c03Init = []uint64{1, 2, 65536 + 2, 65536 + 3}
-var c03Other = []uint64{1, 65536 + 2, 65536 + 9}
+// the second operand shares containers 0 and 1 with the source and has one container (key 3) of
+// its own, so that binary operations take their "only in the argument" branches too
+var c03Other = []uint64{1, 65536 + 2, 65536 + 9, 3*65536 + 7}
 
 func c03Encode(vals []uint64) []byte {
 	bm := roaring.NewBitmap(vals...)
@@ -385,7 +387,7 @@ func c03Alphabet(kind string) []vx.Op {
 	for _, m := range []string{"add", "remove", "addN", "removeN", "importSet", "importClear", "optimize"} {
 		a = append(a, vx.Op{Name: "mutSrc", S: m})
 	}
-	for _, m := range []string{"add", "remove", "removeN", "importClear"} {
+	for _, m := range []string{"add", "remove", "addN", "removeN", "importClear"} {
 		a = append(a, vx.Op{Name: "mutDer", S: m})
 	}
 	a = append(a, vx.Op{Name: "mutOth", S: "remove"}, vx.Op{Name: "mutOth", S: "addN"})
